@@ -262,6 +262,34 @@ fn stream_case_p(tr: &mut Tr, id: &str, prop: &str, deflate_kind: bool, data: &[
         s.avail_in = ch as u32;
         s.next_out = gout.ptr;
         s.avail_out = ol as u32;
+        if r.gen_range(0..6) == 0 {
+            // a call C can express but the stream must refuse, in the middle of the stream: it has to
+            // return an error code and leave the stream usable - the calls that follow are still
+            // compared with the Rust twin, which never saw the refused call
+            let before = fields(&s, gin.ptr as usize, gout.ptr as usize);
+            let k = r.gen_range(0..5);
+            let (what, rc) = unsafe {
+                match k {
+                    0 => ("call of the other kind", if deflate_kind { mz_inflate(&mut s, 0) } else { mz_deflate(&mut s, 0) }),
+                    1 => ("end of the other kind", if deflate_kind { mz_inflateEnd(&mut s) } else { mz_deflateEnd(&mut s) }),
+                    2 => {
+                        s.zalloc = Some(fake_alloc);
+                        let rc = if deflate_kind { mz_deflate(&mut s, 0) } else { mz_inflate(&mut s, 0) };
+                        s.zalloc = None;
+                        ("call with a custom allocator set", rc)
+                    }
+                    3 => {
+                        s.zfree = Some(fake_free);
+                        let rc = if deflate_kind { mz_deflateEnd(&mut s) } else { mz_inflateEnd(&mut s) };
+                        s.zfree = None;
+                        ("end with a custom free set", rc)
+                    }
+                    _ => ("out-of-range flush value", if deflate_kind { mz_deflate(&mut s, 7) } else { mz_inflate(&mut s, 9) }),
+                }
+            };
+            let after = fields(&s, gin.ptr as usize, gout.ptr as usize);
+            tr.ev(json!({"ev": "c_misuse_mid", "what": what, "ret": rc, "before": before, "after": after}));
+        }
         let before = fields(&s, gin.ptr as usize, gout.ptr as usize);
         let rc = unsafe { if deflate_kind { mz_deflate(&mut s, flush) } else { mz_inflate(&mut s, flush) } };
         let after = fields(&s, gin.ptr as usize, gout.ptr as usize);
